@@ -11,7 +11,7 @@ set_option linter.unusedSimpArgs false
 theorem op_adc_eq : Gen.CpuGo.Alt.op_adc = Cpu.runP .adc := by
   funext s
   simp only [Gen.CpuGo.Alt.op_adc, Cpu.runP, adcLike_go, adcLikeGo, gotie_a]
-  simp only [get_bind, ite_run]
+  simp only [bind_assoc, bind_pure_unit, ite_bind, get_bind, ite_run]
   by_cases hM : s.r.M = true
   · simp only [hM, if_true]
     with_reducible apply read_step _ isRead_cmdRead; intro t
@@ -23,7 +23,7 @@ theorem op_adc_eq : Gen.CpuGo.Alt.op_adc = Cpu.runP .adc := by
 theorem op_sbc_eq : Gen.CpuGo.Alt.op_sbc = Cpu.runP .sbc := by
   funext s
   simp only [Gen.CpuGo.Alt.op_sbc, Cpu.runP, adcLike_go, adcLikeGo, gotie_a]
-  simp only [get_bind, ite_run]
+  simp only [bind_assoc, bind_pure_unit, ite_bind, get_bind, ite_run]
   by_cases hM : s.r.M = true
   · simp only [hM, if_true]
     with_reducible apply read_step _ isRead_cmdRead; intro t
